@@ -57,6 +57,57 @@ def wire_oracle(ctx):
     return res
 
 
+VERBS_WITH_SEQ = (b"AVERS", b"CURCH", b"SFILE", b"STATU", b"GETWC", b"SETWC", b"REQRM", b"STATQ", b"SPACK", b"UPDTS")
+
+
+def session_wire(seed):
+    """A full session of the REAL async client (handshake, refresh, facade queries, commands, acknowledgements of the spa's partial
+    updates) against the in-process simulator under virtual time: the sequence byte of every datagram the client put on the wire."""
+    import asyncio
+    import random
+    from harness import vloop, session
+    rng = random.Random(seed)
+
+    async def main(loop):
+        peer = session.Peer(loop, "inYT-all off-2020-10-23 18_00_45.snapshot", latency=0.02, echo_delay=0.2)
+        cl = session.Client(peer)
+        await cl.connect(with_facade=True)
+        spa = cl.spa
+        for k in range(230):
+            r = rng.random()
+            try:
+                if r < 0.45:
+                    await spa.async_press(rng.choice([1, 2, 3, 16]))
+                elif r < 0.6:
+                    acc = spa.accessors.get("SetpointG")
+                    if acc is not None:
+                        await acc.async_set_value(rng.randrange(500, 720))
+                elif r < 0.63:
+                    # SETWC is never answered by the simulator (K4): take its first transmission only
+                    t = loop.create_task(spa.async_set_watercare(rng.randrange(0, 5)))
+                    await asyncio.sleep(0.5)
+                    t.cancel()
+                    await asyncio.sleep(0)
+                elif r < 0.8:
+                    await spa.async_get_watercare()
+                else:
+                    await spa.async_get_reminders()
+            except AssertionError:
+                break
+            await asyncio.sleep(rng.choice([0.0, 0.3, 1.1]))
+        await cl.close()
+        return [d for (t, d) in peer.raw]
+    out = []
+    for d in vloop.run(main):
+        i = d.find(b"<DATAS>")
+        if i < 0:
+            continue
+        c = d[i + 7:]
+        if c[:5] in VERBS_WITH_SEQ and len(c) > 5:
+            out.append((c[:5].decode(), c[5]))
+    return out
+
+
 def run(ctx):
     ctx.rule = ("correspondence: every reachable counter state (p in 0..191, c in 191..255; thorough: all 256x256) x both kinds, "
                 "real get_and_increment_sequence_counter of both classes vs the AST-translated Gallina body; plus random call "
@@ -150,5 +201,26 @@ def run(ctx):
                 break
     except Exception as e:
         ctx.oblige("oracle:wire_level_runs", False, repr(e))
+    # 5. the wire of a whole async session: commands and requests each walk their own cycle, one step per datagram, in order
+    try:
+        wire = session_wire(ctx.seed)
+        ctx.count("session_wire_datagrams", len(wire))
+        last = {True: None, False: None}
+        for n, (verb, seq) in enumerate(wire):
+            cmd = verb == "SPACK"
+            lo, hi = (192, 255) if cmd else (1, 191)
+            if not lo <= seq <= hi:
+                ctx.fail("wire:session:range:%s" % verb, "datagram #%d of the session (%s) carries sequence %d, outside %d..%d" % (n, verb, seq, lo, hi), {"verb": verb, "sequence_byte": seq, "nth": n})
+                break
+            want = None if last[cmd] is None else (lo if last[cmd] == hi else last[cmd] + 1)
+            if want is not None and seq != want:
+                ctx.fail("wire:session:successor:%s" % verb, "datagram #%d of the session (%s) carries sequence %d, the previous %s carried %d" % (
+                    n, verb, seq, "command" if cmd else "request", last[cmd]), {"verb": verb, "sequence_byte": seq, "previous": last[cmd], "nth": n, "wire": wire[max(0, n - 5):n + 1]})
+                break
+            last[cmd] = seq
+        ctx.extra["session_wire_sample"] = wire[:12]
+        ctx.dist["session_wire_wraps"] = sum(1 for a, b in zip(wire, wire[1:]) if b[1] < a[1] and (a[0] == "SPACK") == (b[0] == "SPACK"))
+    except Exception as e:  # noqa
+        ctx.oblige("oracle:session_wire_runs", False, repr(e)[:300])
     ctx.assume += ["`with self._lock` makes the threaded counter body atomic (AST fact c16_threaded_counter_locked; threads themselves are outside the model)",
                    "call sites are found syntactically (calls through other names would be missed; none exist today)"]
